@@ -6,7 +6,8 @@
    tables); Model/Subproc.v interprets them over Model/PipeKernel.v (pipe ends per process,
    fork inheritance, EOF by writer count, truncated messages, join, zombies).
    Quantifiers: `b : beh` is EVERY behaviour of the callee (returns / raises any exception
-   class / terminates the process itself; small or large, picklable or not, sync or async);
+   class / terminates the process itself; small or large, picklable or not, sync or async;
+   SIGTERM fatal for the child or handled/ignored there - b_term_fatal);
    `sched : list lchoice` is EVERY schedule of parent steps, child steps and external kills
    of the child - a kill may come before the child's first step, inside the callee, in the
    middle of sending a large result, after it, or never; `behs : list beh` is ANY number
@@ -351,6 +352,65 @@ Proof.
   split; [exact join_first_fails_sweep | vm_compute; reflexivity].
 Qed.
 Print Assumptions C17_join_before_recv_deadlocks_on_large_result.
+
+(* which signal stops the child of a cancelled await is in the model (PKill sg; the behaviour says whether
+   SIGTERM is fatal for the child: an application that has installed its own SIGTERM handler / SIG_IGN hands
+   it to every forked child).  The handler around the wait has no suspension point, so after process.<signal>()
+   it goes straight to process.join().  With terminate() and a child in which SIGTERM is not fatal the
+   coroutine then sits in join() - holding the loop thread - while the callee is still computing, for as long
+   as the callee runs; where SIGTERM is fatal the same program cleans up at once, which is why the edit looks
+   harmless.  The regenerated program (kill(): SIGKILL) is immune: same behaviour, same schedule, CancelledError
+   at once, child killed and reaped.  `b` of every theorem above ranges over both values of b_term_fatal. *)
+Definition b_ok_sigterm_handled := mk_beh_sig COk [] false true false false false false.
+Definition cancel_then_parent : list lchoice :=
+  flat_map (fun _ => [LParent]) (seq 0 12) ++ [LChild; LCancel] ++ flat_map (fun _ => [LParent]) (seq 0 6).
+Theorem C17_terminate_in_cancel_handler_holds_loop_thread :
+  (let s := lrun terminate_parent_prog C b_ok_sigterm_handled cancel_then_parent linit in
+   sync_blocked terminate_parent_prog C b_ok_sigterm_handled s = true /\ callee_pending C s = true /\ p_done s = false) /\
+  (let s := lrun terminate_parent_prog C b_ok cancel_then_parent linit in
+   p_stat (ps s) = PSDone (FRaise (XCls CancelledErrorC)) /\ clean_exit s = true) /\
+  check_all terminate_parent_prog C true true = false /\
+  (let s := run1 b_ok_sigterm_handled cancel_then_parent in
+   p_stat (ps s) = PSDone (FRaise (XCls CancelledErrorC)) /\ clean_exit s = true /\ c_killed (cs s) = true).
+Proof.
+  split; [vm_compute; repeat split; reflexivity|].
+  split; [vm_compute; repeat split; reflexivity|].
+  split; [exact terminate_fails_sweep | vm_compute; repeat split; reflexivity].
+Qed.
+Print Assumptions C17_terminate_in_cancel_handler_holds_loop_thread.
+(* the hypotheses of C17_single_nonblocking are met by such a child too: it is a behaviour like any other *)
+Example ex_sigterm_handled_child_nonblocking : forall sched,
+  sync_blocked P C b_ok_sigterm_handled (run1 b_ok_sigterm_handled sched) = true ->
+  callee_pending C (run1 b_ok_sigterm_handled sched) = false.
+Proof. intro sched. apply C17_single_nonblocking. Qed.
+
+(* ---- who else holds the write end (K6) -------------------------------------------------------------------- *)
+(* FULL STATEMENT (refuted, kept visible): "every invocation terminates - including when the child process dies
+   without reporting a result", whoever else holds the write end of the invocation's pipe:
+     forall env b sched, <the parent of `lrun_env env b sched linit` can still move, or is done>.
+   Every single-invocation theorem above is stated for env = 0 (`lrun` steps with `lstep P C b 0`): nobody but
+   the parent and its child holds the write end.  For concurrent invocations that is a theorem
+   (C17_noninterference_N: env_writers = 0, children of OTHER invocations never inherit it).  It is an assumption
+   about the callee: a process which the CALLEE starts is forked from the child and inherits its copy of the
+   write end - one more live holder, env = 1, for as long as that process lives.  Witness: the child is killed
+   inside the callee; with env = 1 the parent stays suspended in the wait (no data, but a writer is left: neither
+   readable nor EOF), no parent / child / kill step is enabled - the awaiting task does not learn of the death.
+   As soon as that holder has gone too (env = 0) the same state runs to ChildProcessError and a clean exit, and
+   without it the same schedule is never stuck.  (Open finding C17-K6; process.sentinel is inherited the same
+   way, a repair needs a second wake-up source tied to the child alone, e.g. a pidfd.) *)
+Definition lrun_env (env : nat) (b : beh) (sched : list lchoice) (s : lst) : lst :=
+  fold_left (fun s c => match lstep P C b env c s with Some s' => s' | None => s end) sched s.
+Definition kill_in_callee : list lchoice := flat_map (fun _ => [LParent]) (seq 0 12) ++ [LChild; LKill].
+Theorem C17_grandchild_holds_write_end_refuted :
+  let s := lrun_env 1 b_ok kill_in_callee linit in
+  (c_stat (cs s) = CExited /\ c_killed (cs s) = true /\ p_stat (ps s) = PSWait /\ callee_reports b_ok = true) /\
+  (lstep P C b_ok 1 LParent s = None /\ lstep P C b_ok 1 LChild s = None /\ lstep P C b_ok 1 LKill s = None) /\
+  (let s' := lrun_env 0 b_ok fair1 s in
+   p_stat (ps s') = PSDone (FRaise (XCls ChildProcessErrorC)) /\ clean_exit s' = true) /\
+  (let s0 := run1 b_ok kill_in_callee in
+   s0 = s /\ l_blocked_forever P C b_ok s0 = false).
+Proof. vm_compute. repeat split; reflexivity. Qed.
+Print Assumptions C17_grandchild_holds_write_end_refuted.
 
 Example ex_protected : check_all protected_parent_prog C true true = true.
 Proof. exact protected_strict. Qed.
